@@ -201,6 +201,15 @@ func c15RevComp(s []byte) []byte {
 
 // mutate a copy: nsub substitutions (to a different letter) and nindel indels of length 1..3
 func c15Mutate(g *hx.Gen, s []byte, nsub, nindel int) []byte {
+	widths := make([]int, nindel)
+	for i := range widths {
+		widths[i] = 1 + g.Intn(3)
+	}
+	return c15MutateW(g, s, nsub, widths)
+}
+
+// c15MutateW: nsub substitutions and one indel of each given width
+func c15MutateW(g *hx.Gen, s []byte, nsub int, widths []int) []byte {
 	c := append([]byte{}, s...)
 	// keep the first and last 12 letters intact so that the copy's ends are alignable
 	lo, hi := 12, len(c)-12
@@ -217,9 +226,11 @@ func c15Mutate(g *hx.Gen, s []byte, nsub, nindel int) []byte {
 			}
 		}
 	}
-	for k := 0; k < nindel; k++ {
+	for _, w := range widths {
+		if len(c)-12-lo <= 0 {
+			break
+		}
 		i := lo + g.Intn(len(c)-12-lo)
-		w := 1 + g.Intn(3)
 		if g.Chance(0.5) { // deletion
 			if i+w < len(c)-12 {
 				c = append(c[:i], c[i+w:]...)
@@ -262,11 +273,13 @@ func c15Workload(g *hx.Gen) string {
 		return true
 	}
 	for p := 0; p < nplants; p++ {
-		lo := minLen * 3 / 2
-		if lo < 150 {
-			lo = 150
-		}
+		// longer than the minimum hit length by a margin that leaves room for the few letters the
+		// x-drop extension may trim at a copy's ends
+		lo := minLen + 30
 		R := g.Range(lo, 500)
+		if g.Chance(0.3) {
+			R = g.Range(lo, lo+60)
+		}
 		rep := g.Letters("acgt", R)
 		// copy B: exact, substitutions, or substitutions and small indels; identity comfortably above minId:
 		// at most a third of the allowed differences
@@ -278,12 +291,18 @@ func c15Workload(g *hx.Gen) string {
 		case 1:
 			cp = c15Mutate(g, rep, g.Range(0, allowed), 0)
 		default:
-			ni := g.Range(1, 3)
-			ns := allowed - 3*ni
-			if ns < 0 {
-				ns = 0
+			// indels count letter by letter against the same budget
+			var widths []int
+			left := allowed
+			for k := g.Range(1, 3); k > 0 && left > 0; k-- {
+				w := g.Range(1, 3)
+				if w > left {
+					w = left
+				}
+				widths = append(widths, w)
+				left -= w
 			}
-			cp = c15Mutate(g, rep, g.Range(0, ns), ni)
+			cp = c15MutateW(g, rep, g.Range(0, left), widths)
 		}
 		comp := 0
 		if g.Chance(0.5) {
